@@ -20,6 +20,7 @@ EXPLANATION = (
     ' Round 4 (added): SIB -- every quantity KaiserWaveform.from_max_val compares with max_val is the same expression of the tried window (max(window) * 1000 * area / sum(window)); the sample index of an interpolation point is round(t * (duration - 1)), not a truncation.'
     ' Round 5 (added): the Blackman window that divides the area is never all zeros; the stored phase / post_phase_shift are strictly below 2pi (double modulo); ArbitraryPhase differentiates only when the duration is not 1; CustomWaveform copies its samples; the exhaustive branch of KaiserWaveform.from_max_val is taken when one sample already fits.'
     ' Round 6 (added after the fifth independent round of breaking changes): the all-zero test of the Blackman window is made on the window that is stored (nothing is applied to it after the test); BlackmanWaveform.from_max_val lengthens the window only under a strict scaling > max_val.'
+    ' Round 7 (added after the sixth, smaller round of breaking changes): InterpolatedWaveform._samples bounds precision - log10(range) with min(..., 9) before converting it to int (log10(0) = -inf for an all-zero waveform).'
 )
 ASSUMPTIONS = ["the scaling spec (which parameters are linear) is written from the property statement in tables/waveforms_c16.json"]
 
